@@ -505,7 +505,22 @@ pub fn run(ctx: &Ctx) -> Report {
     // interpolation parts, constants one below / at / above their limits; operand values 0..255 at the end of
     // a function): compiling terminates without a panic, those beyond a limit are rejected
     let fam_h = crate::c04::limit_sources(ctx).into_iter().map(|(src, must_err)| Case { family: "h_size_limits", src, must_err });
-    let all = fam_a.chain(fam_b).chain(fam_e).chain(fam_d).chain(fam_h).chain(fam_f).chain(fam_g).chain(fam_c);
+    // (i) compile errors located at a token that carries text of every length: string literals of 0..120 bytes
+    // of ASCII followed by a character of 2, 3 or 4 bytes (wherever a message abbreviates, pads or copies a
+    // lexeme, a multi-byte character straddles the limit at some length), long identifiers and long numbers
+    let mut long_lexemes: Vec<Case> = Vec::new();
+    for len in 0..=120usize {
+        for tail in ["\u{e9}", "\u{20ac}", "\u{1f600}", "z"] {
+            let text = format!("{}{}", "a".repeat(len), tail);
+            long_lexemes.push(Case { family: "i_long_lexemes", src: format!("print(1 \"{}zz\");\nprint(2);\n", text), must_err: true });
+            long_lexemes.push(Case { family: "i_long_lexemes", src: format!("var x = nil \"{}\";\n", text), must_err: true });
+            long_lexemes.push(Case { family: "i_long_lexemes", src: format!("var s = \"{}\" \"{}\";\n", tail, text), must_err: true });
+        }
+        long_lexemes.push(Case { family: "i_long_lexemes", src: format!("var x = nil {};\n", "b".repeat(len + 1)), must_err: true });
+        long_lexemes.push(Case { family: "i_long_lexemes", src: format!("var x = nil {};\n", "7".repeat(len + 1)), must_err: true });
+        long_lexemes.push(Case { family: "i_long_lexemes", src: format!("var x = nil {}.{};\n", "7".repeat(len / 2 + 1), "3".repeat(len / 2 + 1)), must_err: true });
+    }
+    let all = fam_a.chain(long_lexemes).chain(fam_b).chain(fam_e).chain(fam_d).chain(fam_h).chain(fam_f).chain(fam_g).chain(fam_c);
     // batches of 400 inputs
     struct Batcher<I: Iterator<Item = Case>> {
         it: I,
@@ -554,7 +569,7 @@ pub fn run(ctx: &Ctx) -> Report {
     report.cov("states", json!(acc.distinct.len()));
     report.cov("transitions", json!(acc.evaluations));
     report.cov("traces_validated_against_impl", json!(acc.evaluations));
-    report.cov("rule", json!("inputs enumerated exhaustively per family (every prefix at every char boundary of every repository script and core.yl; token-level delete/duplicate/swap[/replace-by-each-token-kind] mutants at every token position; every token sequence up to the stated length over the full token vocabulary; nesting ladders and limit-sized programs; the programs of C04's limit family (every jump kind sized to 65534..65537, 70000 and 131071..131073 bytes, every count limit straddled, every operand value at the end of a function); valid programs with one stray closer at every token position; character-level mutants: every single-character deletion and insertions of ten lexically significant characters; five recovery templates - every statement form nested, with control flow after the places a mutant breaks - under deletion, duplication, swap, and replacement by / insertion of each of the 71 token kinds at every token position). distinct = distinct source text; non-trivial = at least two tokens by the reference lexer."));
+    report.cov("rule", json!("inputs enumerated exhaustively per family (every prefix at every char boundary of every repository script and core.yl; token-level delete/duplicate/swap[/replace-by-each-token-kind] mutants at every token position; every token sequence up to the stated length over the full token vocabulary; nesting ladders and limit-sized programs; compile errors located at a token of every length (string literals of 0..120 bytes followed by a character of 2, 3 or 4 bytes, identifiers and numbers up to 121 characters); the programs of C04's limit family (every jump kind sized to 65534..65537, 70000 and 131071..131073 bytes, every count limit straddled, every operand value at the end of a function); valid programs with one stray closer at every token position; character-level mutants: every single-character deletion and insertions of ten lexically significant characters; five recovery templates - every statement form nested, with control flow after the places a mutant breaks - under deletion, duplication, swap, and replacement by / insertion of each of the 71 token kinds at every token position). distinct = distinct source text; non-trivial = at least two tokens by the reference lexer."));
     report.cov("exhaustive", json!(acc.skipped_after_hangs == 0));
     report.cov("bounds", json!({"token_sequence_length": seq_len, "vocabulary": nv, "replacement_mutants": thorough, "ladder_depth_max": 256}));
     report.cov("by_family", json!(acc.by_family));
